@@ -9,6 +9,7 @@ import (
 	"path/filepath"
 	"reflect"
 	"strings"
+	"sync"
 	"testing"
 	"time"
 
@@ -25,28 +26,33 @@ import (
 
 func genCfgRace(r *Rng, tier string, p *Plan) {
 	p.N["cfgrace"] = 1
-	n := r.Range(4, 12)
-	if tier == "thorough" {
-		n = r.Range(4, 40)
-	}
 	now := int64(0)
+	// a sweep: every getter once, each in a step of its own together with one
+	// reload that applies changed content. The detector remembers only the last
+	// four accesses to a memory word, so a getter is judged alone with its
+	// reload; were all sixty getters to run beside one reload, their (locked)
+	// reads of the same word would push out the one that matters.
+	p.Add(Op{K: "sweep", At: now, I: int64(r.Intn(1 << 30)), B: r.Bool(0.3)})
+	now += 1_000_000
+	n := r.Range(0, 8)
+	if tier == "thorough" {
+		n = r.Range(0, 40)
+	}
 	for i := 0; i < n; i++ {
-		now += PickOf(r, int64(0), 0, 1000, 100_000)
-		switch r.Intn(5) {
-		case 0:
-			p.Add(Op{K: "write", At: now, S: "cfg", N: int64(PickOf(r, 0, 1, 2, 6, 8))})
-		case 1:
-			p.Add(Op{K: "write", At: now, S: "rules", N: int64(PickOf(r, 0, 1, 3))})
-		case 2:
-			p.Add(Op{K: "reload", At: now, N: int64(r.Range(1, 3))})
-		default:
-			p.Add(Op{K: "read", At: now, N: int64(r.Range(1, 4)), M: int64(r.Intn(2))})
-		}
+		now += PickOf(r, int64(1000), 100_000)
+		// a round: the sources change, and in the same step one reload (or two) and
+		// a few readers start
+		p.Add(Op{K: "round", At: now, S: PickOf(r, "cfg", "cfg", "rules"), N: int64(i), I: int64(r.Intn(1 << 30)), J: int64(PickOf(r, 1, 2, 4, 1000)), M: int64(r.Intn(3)), B: r.Bool(0.3)})
 	}
 	p.SortOps()
 }
 
-func callAllGetters(cfg config.Config, marshal bool) {
+var cfgRaceCfg = []int{0, 1, 2, 6, 8}
+var cfgRaceRules = []int{0, 1, 3}
+
+// getterCalls returns one closure per getter of the config.
+func getterCalls(cfg config.Config, marshal bool) []func() {
+	var calls []func()
 	v := reflect.ValueOf(cfg)
 	t := v.Type()
 	for i := 0; i < t.NumMethod(); i++ {
@@ -67,19 +73,65 @@ func callAllGetters(cfg config.Config, marshal bool) {
 		if !ok || mt.IsVariadic() {
 			continue
 		}
-		outs := v.Method(i).Call(args)
-		if marshal {
-			for _, o := range outs {
-				if o.CanInterface() {
-					_, _ = json.Marshal(o.Interface())
+		fn := v.Method(i)
+		calls = append(calls, func() {
+			outs := fn.Call(args)
+			if marshal {
+				for _, o := range outs {
+					if o.CanInterface() {
+						_, _ = json.Marshal(o.Interface())
+					}
 				}
 			}
+		})
+	}
+	return calls
+}
+
+func callAllGetters(cfg config.Config, marshal bool) {
+	for _, f := range getterCalls(cfg, marshal) {
+		f()
+	}
+}
+
+// warmCfgRace runs once per process, outside any measured run: reflection, the
+// YAML decoder and the validator fill process-wide caches (sync.Map stores) the
+// first time they see a type, and such a store in one goroutine followed by a
+// load in another is a happens-before edge between a getter and a reload that
+// has nothing to do with refinery. After the warm-up those caches are only read.
+var warmCfgRaceOnce sync.Once
+
+func warmCfgRace() {
+	dir, err := os.MkdirTemp("", "verif-c35warm-")
+	if err != nil {
+		return
+	}
+	defer os.RemoveAll(dir)
+	os.WriteFile(filepath.Join(dir, "cfg.yaml"), []byte(cfgVariants[0]), 0o644)
+	os.WriteFile(filepath.Join(dir, "rules.yaml"), []byte(rulesVariants[0]), 0o644)
+	opts := &config.CmdEnv{ConfigLocations: []string{filepath.Join(dir, "cfg.yaml")}, RulesLocations: []string{filepath.Join(dir, "rules.yaml")}}
+	cfg, _ := config.NewConfig(opts)
+	if cfg == nil {
+		return
+	}
+	cfg.RegisterReloadCallback(func(a, b string) { callAllGetters(cfg, true) })
+	for k := 0; k < 2; k++ {
+		for _, v := range cfgRaceCfg {
+			os.WriteFile(filepath.Join(dir, "cfg.yaml"), []byte(cfgVariants[v]), 0o644)
+			cfg.Reload()
+			callAllGetters(cfg, k == 0)
+		}
+		for _, v := range cfgRaceRules {
+			os.WriteFile(filepath.Join(dir, "rules.yaml"), []byte(rulesVariants[v]), 0o644)
+			cfg.Reload()
+			callAllGetters(cfg, k == 0)
 		}
 	}
 }
 
 func runCfgRace(t *testing.T, p *Plan) *Outcome {
 	out := NewOutcome()
+	warmCfgRaceOnce.Do(warmCfgRace)
 	newRaceReports()
 	dir, err := os.MkdirTemp("", "verif-c35cfg-")
 	if err != nil {
@@ -110,6 +162,7 @@ func runCfgRace(t *testing.T, p *Plan) *Outcome {
 		out.Probe("race_run_real_fileconfig")
 		drv := NewDriver(out, p.Seed)
 		drv.RaceMode = true
+		nwrites := 0
 		var last int64
 		for _, op := range p.Ops {
 			op := op
@@ -117,16 +170,49 @@ func runCfgRace(t *testing.T, p *Plan) *Outcome {
 				last = op.At
 			}
 			drv.AtSig(us(op.At), op.K, fmt.Sprintf("op/%d", op.ID), fmt.Sprintf("%s%d", op.S, op.N), func() {
+				calls := getterCalls(cfg, op.B)
 				switch op.K {
-				case "write":
-					write(op.S, int(op.N))
-				case "reload":
-					for i := int64(0); i < op.N; i++ {
+				case "sweep":
+					for k := range calls {
+						// seeded order; content alternates so that every reload applies
+						f := calls[(k*7+int(op.I))%len(calls)]
+						nwrites++
+						write("cfg", cfgRaceCfg[nwrites%len(cfgRaceCfg)])
+						if H(uint64(op.I), "order", k)%2 == 0 {
+							go cfg.Reload()
+							go f()
+						} else {
+							go f()
+							go cfg.Reload()
+						}
+						time.Sleep(time.Nanosecond)
+					}
+				case "round":
+					nwrites++
+					if op.S == "cfg" {
+						write("cfg", cfgRaceCfg[nwrites%len(cfgRaceCfg)])
+					} else {
+						write("rules", cfgRaceRules[nwrites%len(cfgRaceRules)])
+					}
+					var readers []func()
+					if int(op.J) >= len(calls) {
+						readers = calls
+					} else {
+						for k := int64(0); k < op.J; k++ {
+							readers = append(readers, calls[int(H(uint64(op.I), "getter", k)%uint64(len(calls)))])
+						}
+					}
+					// one goroutine per getter call: the detector works on happens-before,
+					// and a reader that went on to take the config's lock for its next
+					// getter would order its earlier reads before any later reload
+					if op.M != 1 {
 						go cfg.Reload()
 					}
-				case "read":
-					for i := int64(0); i < op.N; i++ {
-						go callAllGetters(cfg, op.M == 1)
+					for _, f := range readers {
+						go f()
+					}
+					if op.M != 0 {
+						go cfg.Reload()
 					}
 				}
 			})
